@@ -1,8 +1,87 @@
+/-
+  C12: pooled memory is exclusively owned: no aliasing, no out-of-bounds.
+  Only property theorems, the audited call-site table and non-vacuity examples live here;
+  helper lemmas are in Gnet/Proofs/Pool.lean. Statements are never weakened to make a proof pass.
+-/
 import Gnet.Model.Pool
+import Gnet.Gen.Facts
+import Gnet.Proofs.Pool
 namespace Gnet.Props.C12
 open Gnet
 
-theorem get_nonpositive (p : BsPool) (n : Int) (c : Option Nat) (h : n ≤ 0) : (p.get n c).2 = none := by
-  simp [BsPool.get, h]
+/-- `Get(n)` for `0 < n ≤ MaxInt32`: exactly the requested length, capacity `2^class ≥ n`,
+    whatever `sync.Pool` hands back. -/
+theorem pool_get_shape (p : BsPool) (n : Int) (c : Option Nat) (h0 : 0 < n) (h1 : n ≤ 2147483647) :
+    ∃ s, (p.get n c).2 = some s ∧ s.len = n.toNat ∧ s.cap = 2 ^ BsPool.classOf n.toNat ∧ n.toNat ≤ s.cap :=
+  Proofs.Pool.get_shape p n c h0 h1
+
+theorem pool_get_nil (p : BsPool) (n : Int) (c : Option Nat) (h : n ≤ 0) : (p.get n c).2 = none :=
+  Proofs.Pool.get_nil p n c h
+
+/-- `Put` of a slice of ANY capacity (power of two or not, re-sliced tail, foreign memory) files
+    its pointer under a class whose capacity does not exceed the slice's own capacity: a later
+    `Get` can never reach beyond the memory the `Put` slice owned. -/
+theorem pool_put_within (cap : Nat) (h0 : 0 < cap) (h1 : cap ≤ 2147483647) :
+    2 ^ BsPool.putClass cap ≤ cap :=
+  Proofs.Pool.put_within cap h0 h1
+
+/-- the invariant: every stored pointer's class-sized region and every outstanding slice's
+    capacity region lie inside their allocation and are pairwise disjoint -/
+theorem pool_inv_init : Proofs.Pool.Inv BsPool.init := Proofs.Pool.inv_init
+
+theorem pool_inv_get (p : BsPool) (n : Int) (c : Option Nat) (h : Proofs.Pool.Inv p) :
+    Proofs.Pool.Inv (p.get n c).1 :=
+  Proofs.Pool.inv_get p n c h
+
+theorem pool_inv_foreign (p : BsPool) (n : Nat) (h : Proofs.Pool.Inv p) : Proofs.Pool.Inv (p.foreign n).1 :=
+  Proofs.Pool.inv_foreign p n h
+
+/-- `Put` under the caller discipline: `buf` is cut from an outstanding slice `owner` that the
+    caller gives up with this call (so it is put at most once and not used afterwards) -/
+theorem pool_inv_put (p : BsPool) (tag : Nat) (buf owner : Slice) (h : Proofs.Pool.Inv p)
+    (ho : owner ∈ p.out) (ha : buf.alloc = owner.alloc)
+    (hlo : owner.off ≤ buf.off) (hhi : buf.off + buf.cap ≤ owner.off + owner.cap) :
+    Proofs.Pool.Inv (p.put tag buf (some owner)) :=
+  Proofs.Pool.inv_put p tag buf owner h ho ha hlo hhi
+
+theorem pool_inv_gc (p : BsPool) (keep : Stored → Bool) (h : Proofs.Pool.Inv p) : Proofs.Pool.Inv (p.gc keep) :=
+  Proofs.Pool.inv_gc p keep h
+
+/-- hence: two slices handed out and not yet returned never share memory, and a slice just
+    obtained shares memory with no other outstanding slice -/
+theorem pool_no_alias (p : BsPool) (h : Proofs.Pool.Inv p) :
+    p.out.Pairwise (fun a b => Proofs.Pool.Disjoint a.alloc a.off a.cap b.alloc b.off b.cap) :=
+  Proofs.Pool.no_alias p h
+
+/-- all histories that follow the discipline, all pool choices, all collections -/
+theorem pool_run_inv (ops : List Proofs.Pool.PoolOp) (hd : Proofs.Pool.Disciplined BsPool.init ops) :
+    Proofs.Pool.Inv (Proofs.Pool.run BsPool.init ops) :=
+  Proofs.Pool.run_inv ops hd
+
+/-- The caller discipline at gnet's own `byteslice.Put` sites: the table is REGENERATED from
+    the source (Facts.poolSites); each site carries a hand-written justification. A new, moved or
+    changed `Put` site breaks this theorem. (An audited argument, not a proof about Go.) -/
+def auditedPutSites : List (String × String × String × String × String) := [
+  ("connection_unix.go", "*conn.Discard", "byteslice.Put", "c.cache", "cache was obtained by Get in Next/Peek, owned by the connection, set to nil right after"),
+  ("connection_unix.go", "*conn.release", "byteslice.Put", "bs.StringToBytes(addr.Zone)", "FINDING: zone string of localAddr (client side); owned only if produced by itod"),
+  ("connection_unix.go", "*conn.release", "byteslice.Put", "bs.StringToBytes(addr.Zone)", "FINDING: zone string of remoteAddr; for enrolled net.Conn it belongs to package net"),
+  ("connection_unix.go", "*conn.release", "byteslice.Put", "bs.StringToBytes(addr.Zone)", "FINDING: zone string of localAddr (UDP client side)"),
+  ("connection_unix.go", "*conn.release", "byteslice.Put", "bs.StringToBytes(addr.Zone)", "FINDING: zone string of remoteAddr (UDP)"),
+  ("pkg/buffer/linkedlist/linked_list_buffer.go", "*Buffer.Discard", "byteslice.Put", "b.buf", "node popped from the list, not re-linked; for Append-ed nodes the memory is the caller's (documented contract of Append)"),
+  ("pkg/buffer/linkedlist/linked_list_buffer.go", "*Buffer.FreeNode", "byteslice.Put", "p", "explicit API: caller states ownership"),
+  ("pkg/buffer/linkedlist/linked_list_buffer.go", "*Buffer.ReadFrom", "byteslice.Put", "b", "buffer obtained by Get in the same iteration and not linked (zero bytes read)"),
+  ("pkg/buffer/linkedlist/linked_list_buffer.go", "*Buffer.Read", "byteslice.Put", "b.buf", "node popped and fully copied out"),
+  ("pkg/buffer/linkedlist/linked_list_buffer.go", "*Buffer.Reset", "byteslice.Put", "b.buf", "node popped, list dropped"),
+  ("pkg/buffer/linkedlist/linked_list_buffer.go", "*Buffer.WriteTo", "byteslice.Put", "b.buf", "node popped and fully written"),
+  ("pkg/buffer/ring/ring_buffer.go", "*Buffer.grow", "byteslice.Put", "rb.buf", "old backing array, replaced by the new one in the next statement")
+]
+
+theorem put_sites_audited :
+    (Facts.poolSites.filter (fun s => s.2.2.1 == "byteslice.Put")) =
+    auditedPutSites.map (fun s => (s.1, s.2.1, s.2.2.1, s.2.2.2.1)) :=
+  Proofs.Pool.put_sites_audited auditedPutSites rfl
+
+-- non-vacuity: a hit serves a Put pointer, regions stay disjoint
+example : ((BsPool.init.get 100 none).1.out.length = 1) := by decide
 
 end Gnet.Props.C12
